@@ -169,6 +169,22 @@ PROFILES = {
                                        "handlers": "attrHandlers", "function_name": "variantFnName"},
                     # the two constants of reply.rs (both 1; `const NUMBER_OF_ALLOWED_*: usize = 1`)
                     "extern_calls": {"ParsedSylviaAttributes::new": "parsedAttrs", "NUMBER_OF_ALLOWED_RAW_PAYLOAD_FIELDS": "1", "NUMBER_OF_ALLOWED_DATA_FIELDS": "1"}},
+    # `ReplyData::new` (C07 / C08 / C18): the table entry a reply method opens - which parameters are payload, which is the data
+    # parameter, the diagnostics of a missing payload; it calls `as_data_field` and `assert_no_redundant_params` (same file)
+    "replynew": {"src": ("sylvia-derive", "src", "contract", "communication", "reply.rs"), "out": "ReplyNewFns.lean", "ns": "Extracted.ReplyNewFns",
+                 "imports": ["Sylvia.Model.RustSem", "Sylvia.Model.RustExtern", "Sylvia.Extracted.ReplyOnFns"], "opens": "open RustSem Extracted.ReplyOnFns\nopen RustExtern (ParsedAttrs)",
+                 "vars": "variable {MsgVariant MsgField MsgAttr Attr P D Ident : Type}", "str": "String",
+                 "only": ["assert_no_redundant_params", "ReplyData.new"], "only_enums": [], "only_structs": ["ReplyData"],
+                 "trait_only": ["MsgVariant.as_data_field"], "diags": True, "tparams": ["Ident", "MsgField"],
+                 "type_vars": ["MsgVariant", "MsgField", "Ident"],
+                 "extern_types": {"ReplyOn": "ReplyOn"},
+                 "extern_enum_fields": {"ReplyOn": {"Success": [], "Error": [], "Always": []}},
+                 "leading_binders": "(variantFields : MsgVariant → List MsgField) (variantMsgAttr : MsgVariant → MsgAttr) (attrReplyOn : MsgAttr → ReplyOn) "
+                                    "(fieldAttrs : MsgField → List Attr) (parsedAttrs : List Attr → ParsedAttrs P D) (variantFnName : MsgVariant → Ident)",
+                 "leading_args": "variantFields variantMsgAttr attrReplyOn fieldAttrs parsedAttrs variantFnName",
+                 "extern_methods": {"fields": "variantFields", "msg_attr": "variantMsgAttr", "reply_on": "attrReplyOn", "attrs": "fieldAttrs", "function_name": "variantFnName"},
+                 "extern_unit_methods": ["validate_fields_attributes"],
+                 "extern_calls": {"ParsedSylviaAttributes::new": "parsedAttrs", "NUMBER_OF_ALLOWED_RAW_PAYLOAD_FIELDS": "1", "NUMBER_OF_ALLOWED_DATA_FIELDS": "1"}},
     # the bridge to chain-custom types (C11): `IntoMsg::into_msg` and `IntoResponse::into_response`, trait methods on cosmwasm_std's
     # SubMsg / Response (declared in Sylvia/Model/RustExtern.lean); arms compiled under `#[cfg(feature = "..")]` become
     # `if feat ".." then <arm> else <the wildcard arm>`, so the regenerated function is the code under every feature set at once
@@ -545,6 +561,13 @@ class FnTr:
                 return self.ex(e[1], lambda r: k("(toStr %s)" % r))
             if name in ("to_owned", "clone") and not e[3]:
                 return self.ex(e[1], k)
+            if name == "skip" and len(e[3]) == 1:
+                return self.ex(e[1], lambda r: self.ex(e[3][0], lambda n: k("(List.drop %s %s)" % (n, r))))
+            if name == "collect" and not e[3] and ((e[4] if len(e) > 4 else None) or "").replace(" ", "") == "Vec<_>" and e[1][0] in ("path", "mcall") \
+                    and not (e[1][0] == "mcall" and e[1][2] in ("map", "filter", "copied", "cloned")):
+                return self.ex(e[1], k)      # an iterator over a list collected back into a Vec: the list
+            if name in self.mod.profile.get("extern_unit_methods", []) and not e[3]:
+                return k("()")
             if name == "last" and not e[3]:
                 return self.ex(e[1], lambda r: k("(List.getLast? %s)" % r))
             if name == "unwrap" and not e[3] and self.mod.profile.get("diags"):
@@ -625,7 +648,7 @@ class FnTr:
                 def kr(r):
                     def kcall(vs):
                         v = hint or self.fresh()
-                        return ["(%s).bind fun %s =>" % (self.mod.call_text(callee, self, [r] + vs), v)] + k(v)
+                        return self.bind_call(self.mod.call_text(callee, self, [r] + vs), v, k)
                     return self.args(e[3], kcall)
                 return self.ex(e[1], kr)
             raise Unsupported("method %s" % name)
@@ -706,6 +729,12 @@ class FnTr:
                 out += ind(karm(body))
         return out
 
+    def bind_call(self, text, v, k):
+        """bind the result of a translated function; in a profile that returns diagnostics the callee's are appended to ours"""
+        if self.mod.profile.get("diags"):
+            return ["(%s).bind fun (%s, d_) =>" % (text, v), "let diags := diags ++ d_"] + k(v)
+        return ["(%s).bind fun %s =>" % (text, v)] + k(v)
+
     def pure_block(self, stmts):
         """a block of `let`s, calls of a `&mut self` method of a foreign visitor on a local, and a final expression, as one term"""
         parts = []
@@ -783,7 +812,7 @@ class FnTr:
 
                 def kc2(vs):
                     v = hint or self.fresh()
-                    return ["(%s).bind fun %s =>" % (self.mod.call_text(callee, self, vs), v)] + k(v)
+                    return self.bind_call(self.mod.call_text(callee, self, vs), v, k)
                 return self.args(argl, kc2)
         if len(p) == 1 and p[0] in self.mod.fns:
             callee = p[0]
@@ -791,7 +820,7 @@ class FnTr:
 
             def kc(vs):
                 v = hint or self.fresh()
-                return ["(%s).bind fun %s =>" % (self.mod.call_text(callee, self, vs), v)] + k(v)
+                return self.bind_call(self.mod.call_text(callee, self, vs), v, k)
             return self.args(argl, kc)
         raise Unsupported("call of %s" % "::".join(p))
 
@@ -913,6 +942,8 @@ class FnTr:
             return self.ex(e[3][0], lambda v: ["let %s := %s ++ [%s]" % (x, x, v)] + rest())
         if t in ("while", "for_range", "for"):
             return self.loop(e, ctx, rest)
+        if t == "mcall":
+            return self.ex(e, lambda v: rest(), hint="_")
         raise Unsupported("statement expression %s" % json.dumps(e)[:100])
 
     def stmt_block(self, e, ctx, rest):
@@ -1302,7 +1333,9 @@ class ModTr:
 
     def call_text(self, callee, caller, vals):
         f = self.fns[callee]
-        parts = [callee] + ([self.profile["leading_args"]] if self.profile.get("leading_args") else [])
+        # a method of a type that is a type variable here (`MsgVariant.as_data_field`): the full name, the variable shadows the prefix
+        head = (self.profile["ns"] + "." + callee) if callee.split(".")[0] in self.profile.get("type_vars", []) and "." in callee else callee
+        parts = [head] + ([self.profile["leading_args"]] if self.profile.get("leading_args") else [])
         if callee in self.cmp:
             parts.append("cmp_str")
         if callee in self.fuel:
